@@ -89,13 +89,26 @@ let finish_case (out : string list) =
   freeze ();
   let text = bytes_of_hex !cur_text in
   let len = String.length !cur_text / 2 in
-  let impl, same =
+  let impl, same_tok =
     match out with
-    | [ "ok"; s ] -> (IOk, s = "same")
-    | [ "err"; p; s ] -> (IErr (pos_of p), s = "same")
-    | [ "panic"; s ] -> (IPanic, s = "same")
-    | [ "hang"; s ] -> (IHang, s = "same")
+    | [ "ok"; s ] -> (IOk, s)
+    | [ "err"; p; s ] -> (IErr (pos_of p), s)
+    | [ "panic"; s ] -> (IPanic, s)
+    | [ "hang"; s ] -> (IHang, s)
     | _ -> failwith "bad OUT line"
+  in
+  let same = same_tok = "same" in
+  (* what differed between the five parses of the same bytes: "diff" = outcome kind / position / Defs();
+     "diff-error-text:<hex>:<hex>" = only the text of the error (Error() NUL Reason()) of two of the runs *)
+  let differs =
+    let printable h =
+      String.concat "" (List.map (fun z -> let c = int_of_z z in
+                                   if c = 0 then " | reason: " else if c >= 32 && c < 127 then String.make 1 (Char.chr c) else Printf.sprintf "\\x%02x" c)
+                          (bytes_of_hex h)) in
+    match String.split_on_char ':' same_tok with
+    | [ "diff-error-text"; a; b ] ->
+        Printf.sprintf "repeated parse of the same bytes differs in the error text: <%s> vs <%s>" (printable a) (printable b)
+    | _ -> "repeated parse of the same bytes differs (outcome kind, position or Defs())"
   in
   let idefs, undumpable = try (defs_of_lines (List.rev !alines), false) with Failure _ -> ([], true) in
   let xdefs = defs_of_lines (List.rev !xlines) in
@@ -120,7 +133,7 @@ let finish_case (out : string list) =
        let clause =
          if impl <> IOk then Some ("parse of a well-formed text did not succeed: " ^ string_of_impl impl)
          else if idefs <> xdefs then Some ("definitions differ from the source (impl/expected): " ^ diff_defs idefs xdefs)
-         else if not same then Some "second parse of the same bytes differs"
+         else if not same then Some differs
          else None
        in
        (match clause with
@@ -139,7 +152,7 @@ let finish_case (out : string list) =
          | IHang -> Some "parser did not terminate within 2 s"
          | IOk -> Some "corrupted definition accepted (operator guarantees a failure of that definition)"
          | IErr p ->
-             if not same then Some "second parse of the same bytes differs"
+             if not same then Some differs
              else if not (in_input p) then Some "error position outside the input"
              else if int_of_z p.p_offset < start then
                Some (Printf.sprintf "error position %s before the corrupted definition (offset %x)" (string_of_pos p) start)
@@ -172,7 +185,7 @@ let finish_case (out : string list) =
          match impl with
          | IPanic -> Some "parser panicked"
          | IHang -> Some "parser did not terminate within 2 s"
-         | _ when not same -> Some "second parse of the same bytes differs"
+         | _ when not same -> Some differs
          | IErr p when not (in_input p) -> Some ("error position outside the input: " ^ string_of_pos p)
          | _ -> None
        in
